@@ -4,7 +4,7 @@
     evaluated, after extraction, on the implementation's output. *)
 From Coq Require Import Floats.SpecFloat.
 From Muxide Require Import Model.Base Model.F64 Model.Boxes Model.Codec Model.Api Model.Writer.
-From Muxide Require Import Spec.Bmff Spec.Reader Spec.NalSplit.
+From Muxide Require Import Spec.Bmff Spec.Reader Spec.NalSplit Spec.Layout.
 Open Scope N_scope.
 
 Inductive rclass := COk | CErr | CPanic.
@@ -283,16 +283,6 @@ Definition check_segment_structure (seg : bytes) : bool :=
   end.
 
 (** * C03: timing *)
-Definition durations_spec (dts : list N) : list N :=
-  match dts with
-  | [] => []
-  | [_] => [1]
-  | _ =>
-      let diffs := (fix go (l : list N) : list N :=
-                      match l with a :: ((b :: _) as t) => (b - a) :: go t | _ => [] end) dts in
-      diffs ++ [last diffs 1]
-  end.
-
 Fixpoint listN_eqb (a b : list N) : bool :=
   match a, b with [], [] => true | x :: a', y :: b' => (x =? y) && listN_eqb a' b' | _, _ => false end.
 Fixpoint listZ_eqb (a b : list Z) : bool :=
@@ -329,3 +319,233 @@ Definition check_C03 (b : builder) (ops : list op) (cls : list rclass) (file : b
          | None, _ => true
          | _, _ => false end)
     end.
+
+(** * C06: finalisation happens once and accounts for every byte and frame *)
+Fixpoint zip_ends (pts : list N) (durs : list N) : list N :=
+  match pts, durs with p :: pt, d :: dt => (p + d) :: zip_ends pt dt | _, _ => [] end.
+
+Definition expected_max_end (h : hist) : N :=
+  let v := zip_ends (map vf_pts (h_v h)) (durations_spec (map vf_dts (h_v h))) in
+  let a := zip_ends (map af_pts (h_a h)) (durations_spec (map af_pts (h_a h))) in
+  fold_right N.max 0 (v ++ a).
+
+Definition absdiff (a b : N) : N := if a <? b then b - a else a - b.
+
+(* [lens] = sink length after each call; [stats] = (video, audio, duration bits, bytes)
+   returned by the first successful finish, if it returned statistics *)
+Definition check_C06 (b : builder) (ops : list op) (cls : list rclass) (lens : list N)
+           (stats : option (N * N * N * N)) (faultfree : bool) : bool :=
+  let h := accepted b ops cls in
+  let fix before (ops : list op) (lens : list N) : bool :=
+    match ops, lens with
+    | FIN :: _, _ => true
+    | _ :: t, l :: lt => (l =? 0) && before t lt
+    | _, _ => true
+    end in
+  let fix after (ops : list op) (cls : list rclass) (lens : list N) (done : option N) : bool :=
+    match ops, cls, lens with
+    | o :: t, c :: ct, l :: lt =>
+        match done with
+        | Some l0 => (match c with CErr => true | _ => false end) && (l =? l0) && after t ct lt done
+        | None => match o, c with
+                  | FIN, COk => after t ct lt (Some l)
+                  | _, _ => after t ct lt None
+                  end
+        end
+    | _, _, _ => true
+    end in
+  let fix fin_len (ops : list op) (cls : list rclass) (lens : list N) : option N :=
+    match ops, cls, lens with
+    | FIN :: _, COk :: _, l :: _ => Some l
+    | _ :: t, _ :: ct, _ :: lt => fin_len t ct lt
+    | _, _, _ => None
+    end in
+  before ops lens && after ops cls lens None &&
+  match stats with
+  | None => true
+  | Some (v, a, dur, bytes) =>
+      (v =? len (h_v h)) && (a =? len (h_a h)) &&
+      (if faultfree then match fin_len ops cls lens with Some l => bytes =? l | None => false end else true) &&
+      (absdiff (tick (decode64 dur)) (expected_max_end h) <=? 1)
+  end.
+
+(** * C15: storage order *)
+Fixpoint ranges_ordered (l : list (N * N)) : bool :=
+  match l with
+  | (o, s) :: (((o', _) :: _) as t) => (o + s <=? o') && ranges_ordered t
+  | _ => true
+  end.
+
+Definition check_C15 (b : builder) (ops : list op) (cls : list rclass) (file : bytes) : bool :=
+  let h := accepted b ops cls in
+  if negb (h_finished h) then true
+  else
+    match read_tracks file with
+    | None => false
+    | Some (_, trs) =>
+        forallb (fun tr => ranges_ordered (tr_ranges tr)) trs &&
+        match cfg_audio b, track_of HV trs, track_of HS trs with
+        | Some _, Some vt, Some at_ =>
+            if forallb (fun f => vf_pts f =? vf_dts f) (h_v h) then
+              forallb (fun vp =>
+                forallb (fun ap =>
+                  let '(vf, (vo, vs)) := vp in
+                  let '(af, (ao, asz)) := ap in
+                  if vf_dts vf <=? af_pts af then vo + vs <=? ao else ao + asz <=? vo)
+                  (combine (h_a h) (tr_ranges at_)))
+                (combine (h_v h) (tr_ranges vt))
+            else true
+        | _, _, _ => true
+        end
+    end.
+
+(** * C09: audio/video synchronisation read back from the file *)
+Fixpoint prefix_sums (l : list N) (acc : N) : list N :=
+  match l with [] => [] | x :: t => acc :: prefix_sums t (acc + x) end.
+
+Definition check_C09 (b : builder) (ops : list op) (cls : list rclass) (file : bytes) : bool :=
+  let h := accepted b ops cls in
+  if negb (h_finished h) then true
+  else
+    match cfg_audio b, h_v h, read_tracks file with
+    | Some _, v0 :: _, Some (_, trs) =>
+        match track_of HV trs, track_of HS trs with
+        | Some vt, Some at_ =>
+            let v0_file := match tr_cts vt with Some (c :: _) => c | _ => 0%Z end in
+            let a_file := prefix_sums (tr_durations at_) 0 in
+            forallb (fun p =>
+                       let '(af, t) := p in
+                       let in_file := (Z.of_N t - v0_file)%Z in
+                       let submitted := (Z.of_N (af_pts af) - Z.of_N (vf_pts v0))%Z in
+                       (Z.abs (in_file - submitted) <=? 1)%Z)
+                    (combine (h_a h) a_file)
+        | _, _ => false
+        end
+    | _, _, None => false
+    | _, _, _ => true
+    end.
+
+(** * C08 / C18: two files describe the same media (tracks, samples, timing, configuration) *)
+Definition track_view (file : bytes) (tr : track) :=
+  (tr_handler tr, b_payload (tr_entry tr), tr_entry_type tr, tr_durations tr, tr_cts tr,
+   track_samples file tr, tr_mdhd tr, tr_tkhd tr, tr_stsc tr).
+
+Fixpoint list_eqb {A} (eqb : A -> A -> bool) (a b : list A) : bool :=
+  match a, b with
+  | [], [] => true
+  | x :: a', y :: b' => eqb x y && list_eqb eqb a' b'
+  | _, _ => false
+  end.
+
+Definition optZ_eqb (a b : option (list Z)) : bool :=
+  match a, b with Some x, Some y => listZ_eqb x y | None, None => true | _, _ => false end.
+
+Definition track_same (f1 f2 : bytes) (t1 t2 : track) : bool :=
+  bytes_eqb (tr_handler t1) (tr_handler t2) &&
+  bytes_eqb (b_payload (tr_entry t1)) (b_payload (tr_entry t2)) &&
+  bytes_eqb (tr_entry_type t1) (tr_entry_type t2) &&
+  listN_eqb (tr_durations t1) (tr_durations t2) && optZ_eqb (tr_cts t1) (tr_cts t2) &&
+  samples_eqb (track_samples f1 t1) (track_samples f2 t2) &&
+  bytes_eqb (tr_tkhd t1) (tr_tkhd t2) &&
+  list_eqb (fun x y => (fst (fst x) =? fst (fst y)) && (snd (fst x) =? snd (fst y)) && (snd x =? snd y))
+           (tr_stsc t1) (tr_stsc t2).
+
+(* everything except chunk offsets, top-level order and (optionally) metadata/language *)
+Definition same_media (ignore_mdhd : bool) (f1 f2 : bytes) : bool :=
+  match read_tracks f1, read_tracks f2 with
+  | Some (_, t1), Some (_, t2) =>
+      list_eqb (fun a b => track_same f1 f2 a b && (ignore_mdhd || bytes_eqb (tr_mdhd a) (tr_mdhd b))) t1 t2
+  | _, _ => false
+  end.
+
+Definition top_types (file : bytes) : list bytes :=
+  match top_layout file with Some l => map (fun e => fst (fst e)) l | None => [] end.
+
+(* fast start on/off: order of top-level boxes, same media, same moov apart from stco *)
+Definition check_C08 (has_samples : bool) (f_on f_off : bytes) : bool :=
+  let order_on := top_types f_on in
+  let order_off := top_types f_off in
+  list_eqb bytes_eqb order_on [T_FTYP; T_MOOV; T_MDAT] &&
+  (list_eqb bytes_eqb order_off [T_FTYP; T_MDAT; T_MOOV] ||
+   (negb has_samples && list_eqb bytes_eqb order_off [T_FTYP; T_MOOV])) &&
+  same_media false f_on f_off.
+
+(** * C10 / C11: fragmented muxing, judged from the emitted bytes only *)
+From Muxide Require Import Model.Frag Spec.FragSpec.
+
+Inductive fout := FoOk | FoErr | FoSeg (b : option bytes) | FoInit (b : bytes) | FoOther.
+
+Fixpoint seg_data_eqb (ss : list seg_sample) (l : list frag_sample) : bool :=
+  match ss, l with
+  | [], [] => true
+  | a :: ss', b :: l' => bytes_eqb (ss_data a) (fs_data b) && Bool.eqb (ss_sync a) (fs_sync b) && seg_data_eqb ss' l'
+  | _, _ => false
+  end.
+
+(* C10: conservation, sequence numbers, accept/reject decisions *)
+Fixpoint check_C10_from (q : aq) (ops : list fop) (outs : list fout) : bool :=
+  match ops, outs with
+  | o :: t, r :: rt =>
+      let '(q', emitted) := aq_step q o in
+      (match o, r with
+       | FWrite _ d _ _, FoOk => match aq_last q with Some l => negb (d <? l) | None => true end
+       | FWrite _ d _ _, FoErr => match aq_last q with Some l => d <? l | None => false end
+       | FFlush, FoSeg None => match emitted with [] => true | _ => false end
+       | FFlush, FoSeg (Some b) =>
+           match emitted, segment_read b with
+           | [(seq, l)], Some v => (sv_seq v =? seq) && seg_data_eqb (sv_samples v) l
+           | _, _ => false
+           end
+       | FWrite _ _ _ _, _ | FFlush, _ => false
+       | _, _ => true
+       end) && check_C10_from q' t rt
+  | _, _ => true
+  end.
+Definition check_C10 (ops : list fop) (outs : list fout) : bool := check_C10_from aq_init ops outs.
+
+(* C11: per-segment timing, base decode times across segments, stable init segment *)
+Definition seg_timing_ok (v : seg_view) (l : list frag_sample) : bool :=
+  listN_eqb (map ss_duration (sv_samples v)) (spec_durations None l) &&
+  listZ_eqb (map ss_cts (sv_samples v)) (map (fun s => (Z.of_N (fs_pts s) - Z.of_N (fs_dts s))%Z) l).
+
+Fixpoint const_interval (l : list N) : bool :=   (* consecutive differences all equal *)
+  match l with
+  | a :: ((b :: ((c :: _) as t2)) as t) => (b - a =? c - b) && (a <=? b) && const_interval t
+  | _ => true
+  end.
+
+(* state: abstract queue, previous segment's last dts, the stream constant (first_dts - tfdt), init bytes seen *)
+Fixpoint check_C11_from (q : aq) (prev_last : option N) (prev_tfdt : option N) (konst : option Z)
+         (init : option bytes) (use_const : bool) (ops : list fop) (outs : list fout) : bool :=
+  match ops, outs with
+  | o :: t, r :: rt =>
+      let '(q', emitted) := aq_step q o in
+      match o, r with
+      | FFlush, FoSeg (Some b) =>
+          match emitted, segment_read b with
+          | [(_, (s0 :: _) as l)], Some v =>
+              let tf := sv_tfdt v in
+              let k := (Z.of_N (fs_dts s0) - Z.of_N tf)%Z in
+              seg_timing_ok v l &&
+              (match prev_tfdt with Some p => p <=? tf | None => true end) &&
+              (match prev_last with Some p => p <=? tf | None => true end) &&
+              (if use_const then match konst with Some k0 => Z.eqb k k0 | None => true end else true) &&
+              check_C11_from q' (Some (fs_dts (last l s0))) (Some tf) (Some k) init use_const t rt
+          | _, _ => false
+          end
+      | FInit, FoInit b =>
+          (match init with Some b0 => bytes_eqb b b0 | None => true end) &&
+          check_C11_from q' prev_last prev_tfdt konst (Some b) use_const t rt
+      | _, _ => check_C11_from q' prev_last prev_tfdt konst init use_const t rt
+      end
+  | _, _ => true
+  end.
+
+(* the constant-interval clause is claimed when all accepted dts are equally spaced
+   and every emitted segment holds at least two samples *)
+Definition check_C11 (ops : list fop) (outs : list fout) : bool :=
+  let acc := accepted_writes None ops in
+  let segs := aq_run aq_init ops in
+  let use_const := const_interval (map fs_dts acc) &&
+                   forallb (fun sl => (2 <=? length (snd sl))%nat) segs in
+  check_C11_from aq_init None None None None use_const ops outs.
